@@ -437,6 +437,11 @@ class AttributeCollection(MutableMapping[int, Attribute]):
                 return self
 
             data = data[offset:]
+            if len(data) < length:
+                # RFC 7606 4: the declared length runs past the end of the attribute block. The
+                # bytes present are not this attribute's value and are never read as a shorter one
+                self.add(TreatAsWithdraw(aid))
+                return self
             left = data[length:]
             attribute = data[:length]
 
@@ -469,6 +474,9 @@ class AttributeCollection(MutableMapping[int, Attribute]):
             # handle the attribute if we know it
             if Attribute.registered(aid, flag):
                 if length == 0 and kls and not kls.VALID_ZERO:
+                    if aid in (Attribute.CODE.MP_REACH_NLRI, Attribute.CODE.MP_UNREACH_NLRI):
+                        # RFC 7606 5.3 / 7.11: nothing says which routes this UPDATE is about
+                        raise Notify(3, 9, 'empty {}'.format(Attribute.CODE.name(aid)))
                     self.add(TreatAsWithdraw(aid))
                     data = left
                     continue
@@ -489,7 +497,12 @@ class AttributeCollection(MutableMapping[int, Attribute]):
                         self.add(Discard())
                         data = left
                         continue
-                    raise exc
+                    # a malformed attribute with no behaviour of its own: RFC 7606 (sections 3 and 8)
+                    # makes treat-as-withdraw the rule; the raw exception was laundered into a
+                    # session reset with NOTIFICATION 1/0 by the reactor's catch-all
+                    self.add(TreatAsWithdraw(aid))
+                    data = left
+                    continue
                 except Notify as exc:
                     if kls and kls.TREAT_AS_WITHDRAW:
                         self.add(TreatAsWithdraw())
@@ -511,33 +524,18 @@ class AttributeCollection(MutableMapping[int, Attribute]):
 
             # if we know the attribute but the flag is not what the RFC says.
             if aid in Attribute.attributes_known:
-                if kls and kls.TREAT_AS_WITHDRAW:
-                    log.debug(
-                        lambda: 'invalid flag for attribute {} (flag 0x{:02X}, aid 0x{:02X}) treat as withdraw'.format(
-                            Attribute.CODE.names.get(aid, 'unset'), flag, aid
-                        ),
-                        'parser',
-                    )
-                    self.add(TreatAsWithdraw())
-                if kls and kls.DISCARD:
-                    log.debug(
-                        lambda: 'invalid flag for attribute {} (flag 0x{:02X}, aid 0x{:02X}) discard'.format(
-                            Attribute.CODE.names.get(aid, 'unset'), flag, aid
-                        ),
-                        'parser',
-                    )
-                    data = left
-                    continue
-                # Attributes not in TREAT_AS_WITHDRAW or DISCARD fall through to this log
-                # This catches implementation gaps - if this fires, add aid to one of the lists
+                if aid in (Attribute.CODE.MP_REACH_NLRI, Attribute.CODE.MP_UNREACH_NLRI):
+                    # the routes to withdraw are inside the attribute which can not be trusted
+                    raise Notify(3, 4, 'invalid flag 0x{:02X} for {}'.format(flag, Attribute.CODE.name(aid)))
+                # RFC 7606 3.c: Optional / Transitive bits in conflict with the type code are
+                # treat-as-withdraw whatever the attribute
                 log.debug(
-                    lambda: (
-                        'invalid flag for attribute {} (flag 0x{:02X}, aid 0x{:02X}) unspecified (should not happen)'.format(
-                            Attribute.CODE.names.get(aid, 'unset'), flag, aid
-                        )
+                    lambda: 'invalid flag for attribute {} (flag 0x{:02X}, aid 0x{:02X}) treat as withdraw'.format(
+                        Attribute.CODE.names.get(aid, 'unset'), flag, aid
                     ),
                     'parser',
                 )
+                self.add(TreatAsWithdraw(aid))
                 data = left
                 continue
 
